@@ -282,7 +282,8 @@ class NameServer(object):
 
     def count(self):
         """Returns the number of name registrations."""
-        return len(self.storage)
+        with self.lock:
+            return len(self.storage)
 
     def lookup(self, name, return_metadata=False):
         """
@@ -290,7 +291,8 @@ class NameServer(object):
         Returns tuple (uri, metadata) if return_metadata is True.
         """
         try:
-            uri, metadata = self.storage[name]
+            with self.lock:
+                uri, metadata = self.storage[name]
             uri = core.URI(uri)
             if return_metadata:
                 return uri, set(metadata or [])
@@ -333,23 +335,23 @@ class NameServer(object):
 
     def remove(self, name=None, prefix=None, regex=None):
         """Remove a registration. returns the number of items removed."""
-        if name and name in self.storage and name != core.NAMESERVER_NAME:
-            with self.lock:
+        with self.lock:
+            if name and name in self.storage and name != core.NAMESERVER_NAME:
                 del self.storage[name]
-            return 1
-        if prefix:
-            items = list(self.list(prefix=prefix).keys())
-            if core.NAMESERVER_NAME in items:
-                items.remove(core.NAMESERVER_NAME)
-            self.storage.remove_items(items)
-            return len(items)
-        if regex:
-            items = list(self.list(regex=regex).keys())
-            if core.NAMESERVER_NAME in items:
-                items.remove(core.NAMESERVER_NAME)
-            self.storage.remove_items(items)
-            return len(items)
-        return 0
+                return 1
+            if prefix:
+                items = list(self.list(prefix=prefix).keys())
+                if core.NAMESERVER_NAME in items:
+                    items.remove(core.NAMESERVER_NAME)
+                self.storage.remove_items(items)
+                return len(items)
+            if regex:
+                items = list(self.list(regex=regex).keys())
+                if core.NAMESERVER_NAME in items:
+                    items.remove(core.NAMESERVER_NAME)
+                self.storage.remove_items(items)
+                return len(items)
+            return 0
 
     # noinspection PyNoneFunctionAssignment
     def list(self, prefix=None, regex=None, return_metadata=False):
